@@ -70,6 +70,25 @@ def either(*ts):
   return ('either',) + tuple(flat)
 
 
+def elem_of(it):
+  """the term of an element of iterable ``it``: the element expression of an unfiltered comprehension, else ('elem', it)"""
+  if it is None:
+    return ('elem', it)
+  outs = []
+  alts = alternatives(it)
+  nonempty = [a for a in alts if a not in (('tuple',), ('list',))]     # an empty literal has no elements to speak of
+  if not nonempty:
+    nonempty = alts
+  for a in nonempty:
+    if isinstance(a, tuple) and a[0] == 'comp' and len(a) == 3 and a[2] == ():
+      outs.append(a[1])
+    elif isinstance(a, tuple) and a[0] == 'call' and a[1] in ('list', 'tuple', 'iter', 'reversed') and len(a) == 3:
+      outs.append(elem_of(a[2]))
+    else:
+      outs.append(('elem', a))
+  return either(*outs)
+
+
 def unpackable(t):
   """alternatives of a term that can be unpacked / indexed: a literal None among several alternatives contributes no
   value (the operation raises on it), so it is left out."""
@@ -243,7 +262,7 @@ class SymEval(object):
       conds = []
       for g in n.generators:
         it = self.ev(g.iter, e2, fn)
-        self.bind(g.target, ('elem', it), e2)
+        self.bind(g.target, elem_of(it), e2)
         for i in g.ifs:
           conds.append(unparse(i))
       return ('comp', self.ev(n.elt, e2, fn), tuple(conds))
@@ -252,7 +271,7 @@ class SymEval(object):
       conds = []
       for g in n.generators:
         it = self.ev(g.iter, e2, fn)
-        self.bind(g.target, ('elem', it), e2)
+        self.bind(g.target, elem_of(it), e2)
         for i in g.ifs:
           conds.append(unparse(i))
       return ('dictcomp', self.ev(n.key, e2, fn), self.ev(n.value, e2, fn), tuple(conds))
@@ -358,7 +377,7 @@ class SymEval(object):
     if isinstance(s, (ast.For, ast.AsyncFor)):
       self._calls(s.iter, env, fn, sink, out, depth, loops)
       it = self.ev(s.iter, env, fn)
-      self.bind(s.target, ('elem', it), env)
+      self.bind(s.target, elem_of(it), env)
       self.run(s.body, env, fn, sink, out, depth, loops + ((s, it, fn),))
       self.run(s.orelse, env, fn, sink, out, depth, loops)
       return
